@@ -349,3 +349,55 @@ def c07f(ctx):
     ok = bool(ex) and all(isinstance(v, ast.BinOp) and isinstance(v.op, ast.Sub) and is_call(v.left, 'time.time') and
                           unparse(v.right) == 'max_lock_time' for v in ex)
     ctx.check(ok, 'cleanup_lockdir:expire-time', 'expire_time = now - max_lock_time', cl)
+
+
+@rule('C07.g', floor=5)
+def c07g(ctx):
+    """acquisition really acquires: _try_lock returns a LockFile on every normal exit, lock() is only left with the lock
+    held, close() closes the handle, and locking is only disabled when explicitly asked for"""
+    for qn in (LOCK + ':FileLock._try_lock', LOCK + ':SemLock._try_lock'):
+        fn = ctx.fn(qn)
+        g = fn.cfg
+        ok = True
+        for p in g.preds()[g.EXIT]:
+            st = g.stmt[p]
+            ok = ok and isinstance(st, ast.Return) and is_call(st.value, 'LockFile')
+        ctx.check(ok and bool(g.preds()[g.EXIT]), fn.short + ':returns-lock', 'every normal exit of _try_lock returns a LockFile(...) (no fall-through None)', fn,
+                  fail='_try_lock can return without a LockFile: FileLock.lock() marks the lock as held although nothing was locked')
+    lk = ctx.fn(LOCK + ':FileLock.lock')
+    g = lk.cfg
+    ok = True
+    for p in g.preds()[g.EXIT]:
+        lab = g.label.get((p, g.EXIT))
+        held = lab is not None and not isinstance(lab[0], str) and any(at.op is None and unparse(at.expr) == 'self._locked' and pol for at, pol in implied(lab[0], lab[1]))
+        ok = ok and held
+    ctx.check(ok and bool(g.preds()[g.EXIT]), 'FileLock.lock:exit-only-when-locked', 'lock() returns only over the loop exit `self._locked` (otherwise it raises LockTimeout)', lk,
+              fail='lock() can return while self._locked is false: the `with` body runs without the lock')
+    tr = [x for x in lk.walk() if is_call(x, 'self._try_lock')]
+    ok = bool(tr) and all(g.guarded(g.node_for(x), lambda at: at.op is None and unparse(at.expr) == 'self._locked', False) for x in tr)
+    ctx.check(ok, 'FileLock.lock:tries-while-unlocked', 'lock attempts are made while the lock is not held', lk)
+    cl = ctx.fn(LF + ':LockFile.close')
+    g = cl.cfg
+    closes = g.find(lambda x: is_call(x, 'self._fp.close'))
+    ok = bool(closes) and all(g.guarded(n, lambda at: at.op == '==' and 'self._fp' in at.text and 'None' in at.text, False) for n, x in closes)
+    reach = bool(closes) and all(n in g.reachable(0) for n, x in closes)
+    ctx.check(ok and reach, 'LockFile.close:closes-handle', 'close() closes the handle whenever one is open (closing releases the flock)', cl,
+              fail='LockFile.close() does not close an open handle: the lock is never released by close()')
+    tl = ctx.fn('mapproxy/cache/base.py:TileLocker.lock')
+    g = tl.cfg
+    dummies = g.find(lambda x: is_call(x, 'DummyLock'))
+    ok = True
+    for n, x in dummies:
+        guards = [at for at, pol in g.guards_of(n) if pol]
+        okd = False
+        for at in guards:
+            e = at.expr if at.op is None else None
+            if e is not None and is_call(e, 'getattr') and len(e.args) == 3 and const_value(e.args[2], 1) is False and \
+                    const_value(e.args[1]) == 'locking_disabled':
+                okd = True
+        ok = ok and okd
+    ctx.check(ok, 'TileLocker.lock:dummy-only-if-disabled', 'a DummyLock is handed out only if `locking_disabled` was set explicitly (default False)', tl,
+              fail='TileLocker.lock() hands out a DummyLock by default: tiles are created without any lock')
+    fl = [x for x in tl.walk() if is_call(x, 'FileLock')]
+    ok = bool(fl) and all(unparse(x.args[0]) == 'lock_filename' and unparse(keyword(x, 'timeout')) == 'self.lock_timeout' for x in fl)
+    ctx.check(ok, 'TileLocker.lock:file-lock', 'otherwise a FileLock on the tile\'s lock file with the configured timeout', tl)
